@@ -2,6 +2,10 @@
 
 Proved: drag_coefficient = (kappa/ln(z/z0))^2, roughness_wu positive with its closed form, _charnock_relation_point (capped
 Charnock relation), _roughness_estimate_point returns NaN or exp(.) > 0 on every return path, the stress balance handed to the root finder.
+The root finder numba_newton_raphson is no longer assumed: its exit contract (contracts/newton_common.py, shared with C11; the instance of this call is
+re-verified here, the whole family under C11) is used at the call site: a roughness that comes out of the solver is exp(x) for a result x that left the
+solver through its convergence test (last step < 1e-6 in log z0 from the last evaluation point of the balance), x in [-20, 0] widened by the initial
+bracket g -/+ |g|/2 around g = log(guess) -- in [-20, 0] itself when -40/3 <= g <= 0; ValueError (no convergence / stationary point) only when the solver is reached.
 tools/solvers.py::fixed_point_iteration (numpy input: 1-d array of any length with possibly-NaN cells, any function that maps missing cells
 to missing cells, bounds none / lower / both, default configuration or any field values), by a loop invariant and a counting lemma:
   * left through `break` with fraction_of_points == 1: every cell with a finite guess passes the convergence test against the previous
@@ -934,7 +938,10 @@ def _bounded_janssen(tier, seed):
 BOUNDED = [Bounded("janssen.stress_balance.compiled", _bounded_janssen, "NaN-or-positive and closure of the stress balance at the returned roughness"),
            Bounded("charnock.implicit_equation", _bounded_charnock, "residual of the implicit Charnock equation at the returned roughness; NaN handling; monotonicity")]
 CONTRACTS = [drag, wu, charnock_point, newton_solver, estimate_point, stress_balance, total_stress, estimate_wiring, fixed_point, charnock_relation, charnock_from_u10]
-TRUSTED = ["A-table: exp(x) > 0; sqrt(x) > 0 for x > 0; log is an uninterpreted function (formula contracts are syntactic in log)",
+TRUSTED = ["A-table: exp(x) > 0; exp(x) <= 1 for x <= 0; sqrt(x) > 0 for x > 0; log is an uninterpreted function (formula contracts are syntactic in log); that e^-20 <= exp(x) "
+           "for x >= -20 (monotonicity of exp) is mathematics outside the contract: the clause is stated for x = log z0",
+           "numba_newton_raphson: the function handed to it is a deterministic, total, real-valued function of its first argument (NaN stress values are outside the model); "
+           "a division by zero is an unspecified real (numba raises ZeroDivisionError, which _roughness_estimate's bare except turns into NaN)",
            "np.nan is an opaque non-real value in the model of the scalar contracts; the solver / Charnock contracts use possibly-NaN cells (value + missing flag, IEEE propagation, "
            "comparisons with NaN false); infinities are not modelled (standing assumption: every real other than the literal np.inf is finite; the solver contract's precondition "
            "`guess_cells_are_finite_or_missing` is therefore trivially true symbolically and a real precondition of the executable twin)",
@@ -942,5 +949,6 @@ TRUSTED = ["A-table: exp(x) > 0; sqrt(x) > 0 for x > 0; log is an uninterpreted 
            "an arbitrary argument array); arrays must be non-empty (np.nanmax of an empty array raises ValueError in the first iteration)",
            "Sum lemma schema `monotone` (pyvc/terms.py, contract option sum_monotone): pointwise ordered terms give ordered sums, strictly if strict at one index of the range",
            "logging calls and the f-string log messages have no modelled effect"]
-EXPLANATION = ("formula fragments, the NaN-or-positive exit contract of the Janssen estimate, the stress balance wiring, the exit contract of the fixed-point solver (numpy input) and its use by "
+EXPLANATION = ("formula fragments, the NaN-or-positive exit contract of the Janssen estimate with the proved exit contract of the hybrid Newton solver at its call site (converged exit, last step "
+               "< 1e-6 in log z0, search interval), the stress balance wiring, the exit contract of the fixed-point solver (numpy input) and its use by "
                "charnock_roughness_length_from_u10 are proved; convergence of the iterations, the residual at the returned roughness and DataArray / scalar inputs are bounded checks on the real functions")
